@@ -1,5 +1,124 @@
+"""E9: self-validation corpus.
+
+A *mutant* is a one-site textual edit of one repository file that keeps the file compiling and is
+meant to break a property clause; the named rule must report it.  A *variant* is a
+behaviour-preserving rewrite; the property's rules must stay silent on it.  Edits are applied to the
+*current* /repo text in memory (Repo overrides) - no scratch tree is created.  An edit whose anchor
+text is not found exactly once on the current tree is reported as ``stale`` and skipped: it says
+nothing about the rule.
+"""
+
+from __future__ import annotations
+
+import importlib
+import os
+import random
+import tempfile
+import shutil
+from concurrent.futures import ProcessPoolExecutor
+from typing import Any, Dict, List, Optional, Tuple
+
 from ..core.findings import Report
+from ..core.loader import AnalysisError, Repo
+
+
+class Edit:
+    def __init__(self, name: str, file: str, old: str, new: str, expect: Optional[str], props: List[str], why: str = ""):
+        self.name, self.file, self.old, self.new = name, file, old, new
+        self.expect = expect  # rule id that must report; None = variant, must be silent
+        self.props, self.why = props, why
+
+
+CORPUS: List[Edit] = []
+
+
+def mutant(name: str, props, file: str, old: str, new: str, expect: str, why: str = "") -> None:
+    CORPUS.append(Edit(name, file, old, new, expect, [props] if isinstance(props, str) else list(props), why))
+
+
+def variant(name: str, props, file: str, old: str, new: str, why: str = "") -> None:
+    CORPUS.append(Edit(name, file, old, new, None, [props] if isinstance(props, str) else list(props), why))
+
+
+def _apply(root: str, e: Edit) -> Optional[Dict[str, str]]:
+    p = os.path.join(root, e.file)
+    if not os.path.exists(p):
+        return None
+    src = open(p, encoding="utf-8").read()
+    if src.count(e.old) != 1:
+        return None
+    return {e.file: src.replace(e.old, e.new)}
+
+
+def _run_one(args: Tuple[str, str, int]) -> Dict[str, Any]:
+    prop, root, idx = args
+    from . import corpus  # noqa: F401  (populates CORPUS)
+
+    e = CORPUS[idx]
+    ov = _apply(root, e)
+    if ov is None:
+        return {"name": e.name, "status": "stale"}
+    tmp = tempfile.mkdtemp(prefix="cspuz-sa-")
+    try:
+        rep = Report(prop, "quick", 0, root, tmp)
+        err = None
+        try:
+            import ast
+
+            ast.parse(ov[e.file])
+            repo = Repo(root, ov)
+            importlib.import_module(f"sa.rules.{prop.lower()}").run(repo, rep)
+        except AnalysisError as ex:
+            err = str(ex)
+        except SyntaxError as ex:
+            return {"name": e.name, "status": "stale", "detail": f"edit does not parse: {ex}"}
+        rules = sorted({f.rule for f in rep.findings})
+        return {"name": e.name, "status": "done", "rules": rules, "error": err,
+                "keys": [f.key for f in rep.findings][:4]}
+    finally:
+        shutil.rmtree(tmp, ignore_errors=True)
 
 
 def run(prop: str, repo_root: str, rep: Report) -> None:
-    rep.extra["selftest"] = "no mutant corpus registered for this property yet"
+    from . import corpus  # noqa: F401
+
+    # baseline findings on the unmodified tree (known findings etc.) are not attributed to an edit
+    base = {f.key for f in rep.findings}
+    idxs = [i for i, e in enumerate(CORPUS) if prop in e.props]
+    if not idxs:
+        rep.extra["selftest"] = {"mutants": 0, "note": "no corpus entries for this property"}
+        return
+    rnd = random.Random(rep.seed)
+    rnd.shuffle(idxs)
+    with ProcessPoolExecutor(max_workers=min(16, len(idxs))) as ex:
+        results = list(ex.map(_run_one, [(prop, repo_root, i) for i in idxs]))
+    table = []
+    bad: List[str] = []
+    for i, r in zip(idxs, results):
+        e = CORPUS[i]
+        row = {"edit": e.name, "kind": "mutant" if e.expect else "variant", "expect": e.expect, **r}
+        if r["status"] == "done":
+            new_keys = [k for k in r.get("keys", []) if k not in base]
+            if e.expect:
+                hit = e.expect in r["rules"] and bool(new_keys)
+                row["verdict"] = "reported" if hit else "MISSED"
+                if not hit:
+                    bad.append(f"mutant {e.name} not reported by {e.expect} (got {r['rules']}, error={r['error']})")
+            else:
+                quiet = not new_keys and not r["error"]
+                row["verdict"] = "silent" if quiet else "FALSE-ALARM"
+                if not quiet:
+                    bad.append(f"variant {e.name} is not silent: {r['rules']} {r['error']} {new_keys[:1]}")
+        table.append(row)
+    rep.extra["selftest"] = {
+        "mutants": sum(1 for t in table if t["kind"] == "mutant" and t["status"] == "done"),
+        "mutants_reported": sum(1 for t in table if t.get("verdict") == "reported"),
+        "variants": sum(1 for t in table if t["kind"] == "variant" and t["status"] == "done"),
+        "variants_silent": sum(1 for t in table if t.get("verdict") == "silent"),
+        "stale": sum(1 for t in table if t["status"] == "stale"),
+        "table": table,
+    }
+    print(f"selftest {prop}: " + ", ".join(f"{k}={v}" for k, v in rep.extra["selftest"].items() if k != "table"))
+    if bad:
+        # a rule that fails its own validation cannot be trusted: analysis error, not a verdict
+        raise AnalysisError("self-validation failed: " + " ;; ".join(bad[:5]))
